@@ -8,6 +8,7 @@ import (
 	"sort"
 	"strconv"
 	"strings"
+	"time"
 
 	"github.com/f1bonacc1/process-compose/src/app"
 	"github.com/f1bonacc1/process-compose/src/command"
@@ -165,6 +166,14 @@ func (c *envC) Exec(op string) string {
 				return "bad-op"
 			}
 			return c.launchEnv(glob, ownP, ownQ, key, len(w) == 6)
+		case len(w) == 5 && w[0] == "realenv":
+			glob, ok1 := pairs(w[2])
+			own, ok2 := pairs(w[3])
+			key, ok3 := UnHex(w[4])
+			if !ok1 || !ok2 || !ok3 || (w[1] != "0" && w[1] != "1") {
+				return "bad-op"
+			}
+			return c.realEnv(w[1] == "1", glob, own, key)
 		case len(w) == 7 && w[0] == "procenv":
 			name, ok := UnHex(w[1])
 			rep, err := strconv.Atoi(w[2])
@@ -291,6 +300,61 @@ func (c *envC) launchEnv(glob, ownP, ownQ [][2]string, key string, withCmds bool
 	return strings.Join(out, " ")
 }
 
+// realEnv: what one real command (no fake commander) sees when the real runner launches it, with or
+// without a pseudo terminal: the value of `key`, the injected pair, the working directory.
+func (c *envC) realEnv(tty bool, glob, own [][2]string, key string) string {
+	return Safe(func() string {
+		verif.Reset(false, false)
+		app.VerifCommander = nil
+		app.VerifStopCtx = nil
+		app.VerifStopCtxOf = nil
+		dir, _ := os.MkdirTemp("", "pcrealenv")
+		defer os.RemoveAll(dir)
+		wd := filepath.Join(dir, "w d")
+		_ = os.Mkdir(wd, 0o755)
+		flat := func(ps [][2]string) []string {
+			var l []string
+			for _, p := range ps {
+				l = append(l, p[0]+"="+p[1])
+			}
+			return l
+		}
+		script := fmt.Sprintf(`if [ "${%s+s}" = s ]; then v=$(printf '%%s' "$%s" | od -An -tx1 | tr -d ' \n'); [ -z "$v" ] && v=-; else v=unset; fi; echo "k=$v n=$PC_PROC_NAME r=$PC_REPLICA_NUM d=$(pwd -P)"`, key, key)
+		pc := types.ProcessConfig{Name: "p", ReplicaName: "p", Command: script, Executable: "sh", Args: []string{"-c", script},
+			Namespace: "default", Replicas: 1, IsTty: tty, WorkingDir: wd, Environment: flat(own)}
+		prj := &types.Project{Processes: types.Processes{"p": pc}, Environment: flat(glob), ShellConfig: command.DefaultShellConfig()}
+		r, err := app.NewProjectRunner((&app.ProjectOpts{}).WithProject(prj).WithIsTuiOn(true))
+		if err != nil {
+			return "runner-error"
+		}
+		done := make(chan struct{})
+		go func() { _ = r.Run(); close(done) }()
+		select {
+		case <-done:
+		case <-time.After(20 * time.Second):
+			_ = r.ShutDownProject()
+			return "run-did-not-return"
+		}
+		mem, _ := r.GetProcessLog("p", 1000, 0)
+		want, _ := filepath.EvalSymlinks(wd)
+		for _, l := range mem {
+			l = strings.TrimRight(l, "\r\n ")
+			if strings.HasPrefix(l, "k=") {
+				i := strings.Index(l, " d=")
+				if i < 0 {
+					return "garbled:" + Hex(l)
+				}
+				d := "other"
+				if l[i+3:] == want {
+					d = "ok"
+				}
+				return l[:i] + " dir=" + d
+			}
+		}
+		return "no-output"
+	})
+}
+
 func encPairs(ps [][2]string) string {
 	parts := []string{}
 	for _, p := range ps {
@@ -395,6 +459,15 @@ func (c *envC) Gen(r *rand.Rand, tier string, emit func(string)) {
 		key := []string{"${VT_A}_w", "$VT_A", "p$$q", "w_${VT_A}", "plain"}[r.Intn(5)]
 		num := []string{"${VT_N}", "$VT_N", "2"}[r.Intn(3)]
 		emit(fmt.Sprintf("loadkey %s %s %s", encPairs(env), Hex(key), Hex(num)))
+	}
+	// one real command under the real runner, with and without a pseudo terminal
+	for k := 0; k < 6; k++ {
+		g, a := layer(), layer()
+		rk := []string{"VT_A", "VT_B", "VT_AB", "VT_NONE"}[r.Intn(4)]
+		if all := append(append([][2]string{}, g...), a...); len(all) > 0 && k < 4 {
+			rk = all[r.Intn(len(all))][0]
+		}
+		emit(fmt.Sprintf("realenv %d %s %s %s", k%2, encPairs(g), encPairs(a), Hex(rk)))
 	}
 	// the environment each of two processes is handed at every launch (first launches and a relaunch by policy)
 	for k := 0; k < m/10+5; k++ {
